@@ -810,6 +810,7 @@ def _install(w):
     w.rec_calls, w.adj_log, w.reload_log, w.freeze_log = [], [], [], []
     w.in_reload = 0
     w.created = []
+    w.restore_log = []
 
     def _i(x):
         return '%d' % x if x == int(x) else repr(x)
@@ -821,8 +822,9 @@ def _install(w):
         def _record_server_state(self, servername):
             r = orig(self, servername)
             if _live(self) and servername in self.servers:
-                st, since = self.servers[servername].get_state()
-                w.rec_calls.append((servername, st.value, since))
+                # what the call left in /placement/<server> (not what the server object says)
+                stored = self.backend.get_default(z.path.placement(servername)) or {}
+                w.rec_calls.append((servername, stored.get('state'), stored.get('since', 0)))
             return r
         return _record_server_state
     patch(Master, '_record_server_state', mk_record_state)
@@ -867,8 +869,9 @@ def _install(w):
             w.reload_log.append(servername)
             cur = self.servers.get(servername)
             cur_s = _attrs(cur, cur.parent) if cur is not None else '~'
+            had_apps = bool(cur.apps) if cur is not None else False
             data = self.backend.get_default(z.path.server(servername))
-            c0 = len(w.created)
+            c0, a0, rs0 = len(w.created), len(w.adj_log), len(w.restore_log)
             w.in_reload += 1
             try:
                 r = orig(self, servername)
@@ -877,10 +880,18 @@ def _install(w):
             now = self.servers.get(servername)
             made = w.created[c0:]
             rec_s = '~'
+            parent_ok = False
             if made and data:
-                rec_s = _attrs(made[0], self.buckets.get(data.get('parent')))
+                pb = self.buckets.get(data.get('parent'))
+                parent_ok = pb is not None
+                rec_s = _attrs(made[0], pb)
             obs = ('loadNew' if cur is None else 'removed' if now is None else 'same' if now is cur else 'replaced')
-            w.run.op('frld %s %s' % (cur_s, rec_s), obs)
+            if cur is None and now is None and not (made and data and not parent_ok):
+                obs = 'loadNew'
+            adjusted = any(n == servername for n, _nested in w.adj_log[a0:])
+            restored = servername in w.restore_log[rs0:]
+            w.run.op('frld %s %s %d %d' % (cur_s, rec_s, 1 if had_apps else 0, 1 if parent_ok else 0),
+                     '%s restore=%d adjust=%d' % (obs, 1 if restored else 0, 1 if adjusted else 0))
             w.stats['fn:reload:' + obs] += 1
             return r
         return reload_server
@@ -1229,7 +1240,8 @@ def _install(w):
     patch(Master, 'remove_app', modelled(lambda self, appname: (lambda: 'mrmapp %d' % aid_of(appname))))
     patch(Loader, 'restore_placement', modelled(
         lambda self, servername, restore_identity=True:
-        (lambda: 'restoreone %d %d' % (sid_of(servername), 1 if restore_identity else 0))))
+        (w.restore_log.append(servername),
+         (lambda: 'restoreone %d %d' % (sid_of(servername), 1 if restore_identity else 0)))[1]))
 
     def line_restoreall(self):
         order = ','.join(str(sid_of(s)) for s in self.servers) or '-'
@@ -1663,6 +1675,20 @@ class _SchedView(object):
                 return None
             if man is None or srec is None:
                 return None
+            # ... plus the traits of the allocation the stored /allocations assign the instance to (every change of
+            # /allocations is followed by its event in this engine, so they apply from the next cycle on)
+            arec = store.nodes.get('/allocations')
+            try:
+                allocs = json.loads(arec.data.decode()) if arec is not None and arec.data else []
+            except ValueError:
+                return None
+            base = appname.split('#')[0]
+            hits_ = [a_ for a_ in (allocs or []) for asg in a_.get('assignments', [])
+                     if fnmatch.fnmatch(base, asg.get('pattern', '')) or fnmatch.fnmatch(appname, asg.get('pattern', ''))]
+            if len(hits_) > 1:
+                return None                     # ambiguous in the generator's own terms: not judged
+            if hits_:
+                own |= set(hits_[0].get('traits', []) or [])
             return own, off
         self.trait_names = trait_names
 
